@@ -157,5 +157,5 @@ def plan(tier, seed):
 
 
 def finish(acc, tier, seed):
-    need = 20000 if tier == "quick" else 250000
+    need = 12000 if tier == "quick" else 250000
     return [f"only {acc.evals} accepted trees validated (< {need})"] if acc.evals < need else []
